@@ -451,7 +451,23 @@ class CoordInterp:
                     return CT("arr", tuple(reversed(base.axes)))
                 if m == "dot" and args:
                     return self._matmul(base, args[0], e)
+                if m == "reshape" and base.scaled and len(base.axes) == 1:
+                    # a vector only changes its orientation: v.reshape(-1, 1) is a column, v.reshape(1, -1) a row
+                    shp = list(e.args[0].elts) if len(e.args) == 1 and isinstance(e.args[0], (ast.Tuple, ast.List)) else list(e.args)
+
+                    def lit(x):
+                        if isinstance(x, ast.Constant) and type(x.value) is int:
+                            return x.value
+                        if isinstance(x, ast.UnaryOp) and isinstance(x.op, ast.USub) and isinstance(x.operand, ast.Constant) and type(x.operand.value) is int:
+                            return -x.operand.value
+                        return None
+
+                    vals = [lit(x) for x in shp]
+                    if vals and vals.count(-1) == 1 and all(v in (1, -1) for v in vals):
+                        return CT("arr", tuple(base.axes[0] if v == -1 else None for v in vals))
                 if m in ("reshape", "ravel", "flatten"):
+                    if m != "reshape" and len(base.axes) == 1:
+                        return base
                     return base if not base.scaled else self._unknown(f".{m}() of a coordinate-typed array", e)
         if name in ("numpy.sum", "numpy.mean", "numpy.median", "numpy.max", "numpy.min", "numpy.amax", "numpy.amin", "numpy.nansum", "numpy.nanmean", "numpy.average", "numpy.percentile", "numpy.quantile"):
             return self._reduce(e, a0, 2 if name in ("numpy.percentile", "numpy.quantile") else 1)
